@@ -549,6 +549,9 @@ class MapEncoder:
         one entry per arm of the value, guarded by the push's conditions plus the arm's own"""
         fn, pv, prog = self.fn, self.pv, self.prog
         alist = codec._def_stmts(pv, vop, bb, idx)
+        if len(alist) < 2:
+            # the value of a (inlined) helper call taken with `?`: the payloads of the Ok arms the helper returns
+            alist = [(t_, b_, None) for t_, b_ in codec.arms(pv, vop, bb, idx)]
         if len(alist) < 2 or len({a[1] for a in alist}) != len(alist):
             return None
         order = {b: i for i, b in enumerate(fn.cfg.rpo)}
